@@ -650,7 +650,42 @@ impl Kind {
 
 /// The iterator handed to the from_iter-style constructors: exact (a Vec), or with a size hint whose
 /// lower bound is below the real count (`filter`), which is just as legal.
+thread_local! {
+    /// the iterator handed to a from_iter-style constructor panics after yielding this many items
+    pub static ITER_PANIC_AT: std::cell::Cell<Option<usize>> = const { std::cell::Cell::new(None) };
+}
+/// payload of that panic
+pub struct IterPanic;
+
 fn feed<T: 'static>(mut v: Vec<T>, inexact: bool) -> Box<dyn Iterator<Item = T>> {
+    if let Some(k) = ITER_PANIC_AT.with(|c| c.get()) {
+        // exact size hint, but `next` panics at position k (the items not yet yielded are dropped with
+        // the iterator)
+        let mut it = v.into_iter();
+        let mut i = 0usize;
+        struct Bomb<I: Iterator> {
+            it: I,
+            i: usize,
+            k: usize,
+        }
+        impl<I: Iterator> Iterator for Bomb<I> {
+            type Item = I::Item;
+            fn next(&mut self) -> Option<I::Item> {
+                if self.i == self.k {
+                    self.i += 1;
+                    callback(|| ());
+                    std::panic::resume_unwind(Box::new(IterPanic));
+                }
+                self.i += 1;
+                self.it.next()
+            }
+            fn size_hint(&self) -> (usize, Option<usize>) {
+                self.it.size_hint()
+            }
+        }
+        let _ = (&mut it, &mut i);
+        return Box::new(Bomb { it, i: 0, k });
+    }
     if inexact {
         // an exact part followed by a filtered part: the size hint is (4n/5, Some(n)) - a positive
         // lower bound that is below the real count (for n < 5 the whole iterator is filtered)
@@ -747,5 +782,16 @@ pub fn build(kind: Kind, prefill: &[u32], inexact: bool) -> Option<Box<dyn Subje
             }
         }
     }));
-    r.ok()
+    match r {
+        Ok(b) => Some(b),
+        Err(e) => {
+            if e.downcast_ref::<IterPanic>().is_some() {
+                ITER_PANICKED.with(|c| c.set(true));
+            }
+            None
+        }
+    }
+}
+thread_local! {
+    pub static ITER_PANICKED: std::cell::Cell<bool> = const { std::cell::Cell::new(false) };
 }
